@@ -24,8 +24,8 @@ func (p *weightedSumParams) Spec_Criterion(criterion string) WeightedCriterion {
 }
 
 func (w *WeightedSumPreferenceFunc) Spec_ParseParams(dm *DecisionMaker) interface{} {
-	weights := ExtractWeights(dm)
-	weightedCriteria := dm.Criteria.ZipWithWeights(&weights)
+	weights := Spec_ExtractWeights(dm)
+	weightedCriteria := dm.Criteria.Spec_ZipWithWeights(&weights)
 	return weightedSumParams{weightedCriteria: weightedCriteria}
 }
 
@@ -34,22 +34,22 @@ func (w *WeightedSumPreferenceFunc) Spec_Identifier() string {
 }
 
 func (w *WeightedSumPreferenceFunc) Spec_MethodParameters() interface{} {
-	return WeightsParamOnly()
+	return Spec_WeightsParamOnly()
 }
 
 func (w *WeightedSumPreferenceFunc) Spec_Evaluate(dmp *DecisionMakingParams) *AlternativesRanking {
 	params := dmp.MethodParameters.(weightedSumParams)
 	prefFunc := func(alternative *AlternativeWithCriteria) *AlternativeResult {
-		return WeightedSum(*alternative, *params.weightedCriteria)
+		return Spec_WeightedSum(*alternative, *params.weightedCriteria)
 	}
-	return Rank(dmp, prefFunc)
+	return Spec_Rank(dmp, prefFunc)
 }
 
 func Spec_WeightedSum(alternative AlternativeWithCriteria, criteria WeightedCriteria) *AlternativeResult {
 	// C03: sum over the weighted criteria of weight x value, the value negated for cost criteria
 	var total Weight = 0
 	for _, criterion := range criteria {
-		total += criterion.Weight * alternative.CriterionValue(&criterion.Criterion)
+		total += criterion.Weight * alternative.Spec_CriterionValue(&criterion.Criterion)
 	}
-	return ValueAlternativeResult(&alternative, total)
+	return Spec_ValueAlternativeResult(&alternative, total)
 }
